@@ -94,7 +94,13 @@ def handle (op : String) (args : List String) : Option String :=
     | [pre, line, tbl] =>
       match hexDecode line, parseTable tbl with
       | some line, some tbl =>
-        let r0 := if pre = "1" then oldRec else zeroRec
+        -- the receiver: zero record, or a record used before (the model has no capacities, so the
+        -- states 1/2 and 0-with-old-address/4 differ only on the Go side)
+        let r0 : Record :=
+          if pre = "1" || pre = "2" then oldRec
+          else if pre = "3" then { oldRec with names := [[111, 49], [111, 50], [111, 51]] }
+          else if pre = "4" then { oldRec with names := [] }
+          else zeroRec
         some (withTable tbl fun toA => showResult (unmarshalText toA r0 line))
       | _, _ => some "bad-op"
     | _ => some "bad-op"
